@@ -1,6 +1,7 @@
 """Configuration of ./check C03 (see pylib/props.py)."""
 CFG = dict(
-        coq=["props/C03.vo"],
+        coq=["props/C03.vo", "props/Compose4.vo"],
+        compose=['Compose_pool_ingest_wf', 'Compose_pool_sorter_wf', 'Compose_pool_rowscount'],
         tie=["gen/Tie_C03.vo", "gen/Tie_Code_RowAddr.vo"],
         model_vo=["model/Sorter.vo", "model/SorterSpec.vo", "model/Ingest.vo", "model/IngestSpec.vo"],
         extract="Ex_C03",
